@@ -70,7 +70,10 @@ class QueueStorage(object):
         pass
 
     def _remove_delivered_rcpts(self, envelope, rcpt_indexes):
-        for index in sorted(rcpt_indexes, reverse=True):
+        # Each delivery round adds its indexes in descending order, relative
+        # to the recipients left by the rounds before it, so they must be
+        # applied in the order they were stored.
+        for index in rcpt_indexes:
             del envelope.recipients[index]
 
     def write(self, envelope, timestamp):
